@@ -6,6 +6,9 @@ CS = {"utf8": "UTF8String", "ia5": "IA5String", "vis": "VisibleString", "prt": "
 CLS = {0: "UNIVERSAL", 1: "APPLICATION", 2: "", 3: "PRIVATE"}
 
 
+SZ_MAX = (1 << 30) - 1   # X691!SzMAX
+
+
 class Gen:
     def __init__(self, prefix="T"):
         self.defs = []          # (name, asn1 text)
@@ -18,7 +21,7 @@ class Gen:
     def size(self, sz):
         if sz["c"] == "none":
             return ""
-        rng = str(sz["lb"]) if sz["lb"] == sz["ub"] else "%d..%d" % (sz["lb"], sz["ub"])
+        rng = str(sz["lb"]) if sz["lb"] == sz["ub"] else "%d..%s" % (sz["lb"], "MAX" if sz["ub"] == SZ_MAX else sz["ub"])
         return "(SIZE(%s%s))" % (rng, ",..." if sz["ext"] else "")
 
     def lit(self, t, v):
